@@ -558,6 +558,29 @@ def unit_tables(unit):
                 expect_table("lshift.row-of-a-table", lambda t: t << mk()[0], [b + [b[0]] for b in base])
                 expect_table("lshift.row.twice", lambda t: (t << list(row)) << list(row), [b + [x, x] for b, x in zip(base, row)])
         expect_table("lshift.table", lambda t: t << mk(), [b + b for b in base])
+        # ---- a row whose cells are themselves sequences (a (start, stop) pair, a list, the empty tuple): whether such a cell is ONE
+        # cell or several is the library's business - but whatever comes back as a Table is rectangular, never ragged
+        for cellname, cell in (("pair", (1, 2)), ("list", [1, 2, 3]), ("empty-tuple", ()), ("nested", ((1, 2), 3)), ("range", range(2))):
+            for pos in range(ncols):
+                row2 = list(row)
+                row2[pos] = cell
+                agg.evals += 1; agg.transitions += 1; agg.compared += 1
+                t = mk()
+                try:
+                    import warnings as _w
+                    with _w.catch_warnings():
+                        _w.simplefilter("ignore")
+                        r = t << row2
+                except Exception:
+                    agg.outcomes["E-ragged-rejected"] += 1
+                    continue
+                if is_table(r):
+                    bad = table_invariant(r)
+                    lens = [len(c._underlying) for c in r._underlying]
+                    if bad or len(set(lens)) > 1:
+                        agg.violation(V("lshift.row.sequence-cell", "ragged-input-stored-as-table", dict(case, cell=cellname, position=pos, column_lengths=lens)))
+                        continue
+                agg.outcomes["E-ragged-rejected" if not is_table(r) else "E-cells-preserved"] += 1
         # ---- an appended row of a WIDER kind promotes the column (a typed TABLE of another kind is refused by design); the cells already there keep their VALUES (judged by ==,
         # so that a conversion 1 -> 1.0 passes; the columns hold values a lossy conversion would change: ints beyond 2**53, dates
         # that a datetime at midnight does not equal)
